@@ -25,6 +25,16 @@ Target(t, m, local, remote) ==
   LET sn == t.subnets[m + 1] IN
   IF sn.set /\ local = T(sn.addr) /\ ~SameNet(local, remote, sn.mask) THEN T(sn.gw) ELSE remote
 Owners(t, ip) == {c \in t.claims : c.ip = ip}
+\* the premise of the loss-free clause: the owner's claim is more than a round trip older than the resolution (a claim made
+\* at the same instant has reached nobody yet), and if this machine has cached a failure for the address, an ARP packet of the
+\* owner has reached it since (the code keeps a failed resolution until a packet of the owner repairs it; a claim alone --
+\* e.g. the owner resolving from its own cache -- puts nothing on the wire)
+Owned0(t, e, tg) ==
+  LET claimed == \E c \in Owners(t, tg) : c.t + 2 * t.lat + 1000 < e.t
+      fails == {d \in t.done : d.m = e.m /\ d.target = tg /\ d.res < 0}
+      lastfail == IF fails = {} THEN -1 ELSE (CHOOSE d \in fails : \A x \in fails : x.t1 <= d.t1).t1
+      announced == \E q \in t.wires : q.ok /\ q.sip = tg /\ (q.dst = -1 \/ q.dst = e.mac) /\ q.t >= lastfail /\ q.t + t.lat + 1000 < e.t
+  IN claimed /\ (fails = {} \/ announced)
 Step(t, e) ==
   LET t0 == [t EXCEPT !.events = @ + 1] IN
   CASE e.ev = "reset" -> [t0 EXCEPT !.run = e.run, !.runs = @ + 1, !.subnets = e.subnets, !.lat = e.lat, !.lossfree = (e.loss = 0 /\ e.only_kth = 0),
@@ -36,9 +46,7 @@ Step(t, e) ==
          \* resolving also claims the local address (Arp::resolve calls listen)
          [t0 EXCEPT !.open = @ \cup {[rid |-> e.rid, m |-> e.m, mac |-> e.mac, local |-> T(e.local),
                                       target |-> Target(t, e.m, T(e.local), T(e.remote)), t0 |-> e.t,
-                                      \* (the owner's claim -- and with it its announcement, an ARP packet of its own -- is more
-                                      \* than a round trip older than this resolution: a claim made at the same instant has not reached anybody yet)
-                                      owned0 |-> \E c \in Owners(t, Target(t, e.m, T(e.local), T(e.remote))) : c.t + 2 * t.lat + 1000 < e.t]},
+                                      owned0 |-> Owned0(t, e, Target(t, e.m, T(e.local), T(e.remote)))]},
                     !.claims = @ \cup {[ip |-> T(e.local), m |-> e.m, mac |-> e.mac, t |-> e.t]}]
     [] e.ev = "rend" ->
          LET r == CHOOSE x \in t.open : x.rid = e.rid
